@@ -26,11 +26,16 @@ MODEL_MODULES = ['HdVerif.Model.SegRead', 'HdVerif.Model.SegReadSpec', 'HdVerif.
 NAMESPACE = 'HdVerif.C02'
 DRIVER = 'Drivers/C02.lean'
 RULE = ('segmentation objects built with the real constructor from (source kind, type, segment numbers, mask, '
-        'omit_empty_frames, tiling, in-memory/file/lazy); every object gets a history of reads (pixel_array accessed at a random '
+        'omit_empty_frames, tiling), about 45 % of them then edited the way a third party might have written them (non-contiguous '
+        'numbers in BINARY/FRACTIONAL, frames permuted, spatial locations NO / absent / REORIENTED_ONLY / mixed, a frame with two '
+        'sources, segment identification only in the shared groups) and opened through one of: in memory, from_dataset (copy or '
+        'not, via the parent Image class), segread eager / lazy, pickle, deepcopy; every object gets a history of reads (pixel_array accessed at a random '
         'step, refused reads kept, earlier requests repeated; object snapshots compared after every step); '
+        'an array returned earlier must not change later; '
         'one case = one read request (entry point, ordered segment '
-        'subset, combine, relabel, skip_overlap_checks, rescale_fractional, dtype, requested planes incl. absent ones, '
-        'assert_missing) or one metadata search; non-trivial = accepted read whose result is neither all zero nor all '
+        'subset — 7 % with a number repeated —, combine, relabel, skip_overlap_checks, rescale_fractional, dtype, requested planes '
+        'incl. absent ones, assert_missing, ignore_spatial_locations True / False / left out) or one metadata query '
+        '(get_segment_numbers, get_tracking_ids, get_segment_description, segmented_property_categories / types); non-trivial = accepted read whose result is neither all zero nor all '
         'equal, or a search with at least one match and one non-match; distinct by (type, entry, number of segments, '
         'subset shape, options, dtype, outcome)')
 ASSUMPTIONS = [
@@ -47,7 +52,9 @@ ASSUMPTIONS = [
     'the shared functional groups) cannot be read by segment at all: every read fails with KeyError / sqlite3.OperationalError; '
     'the model mirrors the refusal (segIndexed), the oracle is silent there (findings/C02.json: open, docs/C02.md)',
 ]
-MODELLED_NOT_VERIFIED = ['numpy (astype, fancy indexing, eye, maximum, isin)', 'SQLite', 'pydicom dataset / pixel decoding',
+MODELLED_NOT_VERIFIED = ['numpy (astype, fancy indexing, eye, maximum, isin)',
+                         'SQLite (joins as list comprehensions; a temporary table as a flag exists / does not exist; locking — a DROP '
+                         'while a query on the table is still open — is not modelled)', 'pydicom dataset / pixel decoding',
                          'frame decoding and frame LUT construction (C01/C05)', 'tiled-region slice arithmetic (C04)',
                          'volume geometry (C03)']
 
